@@ -591,3 +591,52 @@ def campaign(prop_id, tier, seed):
         print("ENGINE-ERROR property=%s only %d non-trivial cases (<%d)" % (prop_id, len(nontrivial), min_nt))
         return 2
     return 0
+
+
+# ------------------------------------------------------------------------------------------------
+# libFuzzer campaigns (thorough tiers) and replay of their artifacts
+# ------------------------------------------------------------------------------------------------
+def run_fuzzer(target, seed, seconds, workers=8, max_len=256, extra_args=()):
+    """runs engine/fuzz/<target> for a wall-clock budget in a scratch directory; returns (stats, [artifact bytes])"""
+    import re
+    binp = os.path.join(build("fuzz"), target)
+    wd = workdir()
+    corp = os.path.join(wd, "corpus"); os.makedirs(corp)
+    art = os.path.join(wd, "art"); os.makedirs(art)
+    env = dict(os.environ); env.update(MPI_ENV); env.update(SAN_ENV); env["OMP_NUM_THREADS"] = "1"
+    cmd = [binp, "-seed=%d" % (seed + 1), "-max_total_time=%d" % seconds, "-max_len=%d" % max_len, "-jobs=%d" % workers, "-workers=%d" % workers,
+           "-artifact_prefix=%s/" % art, "-print_final_stats=1"] + list(extra_args) + [corp]
+    t0 = time.time()
+    subprocess.run(cmd, stdout=subprocess.DEVNULL, stderr=subprocess.DEVNULL, env=env, cwd=wd)
+    execs = 0; cov = 0
+    for f in os.listdir(wd):
+        if f.startswith("fuzz-") and f.endswith(".log"):
+            txt = open(os.path.join(wd, f), errors="replace").read()
+            m = re.findall(r"stat::number_of_executed_units:\s*(\d+)", txt)
+            execs += sum(int(x) for x in m)
+            c = re.findall(r"cov: (\d+)", txt)
+            if c:
+                cov = max(cov, int(c[-1]))
+    crashes = []
+    for f in sorted(os.listdir(art)):
+        if f.startswith("crash-") or f.startswith("leak-"):
+            crashes.append(open(os.path.join(art, f), "rb").read())
+    stats = {"target": target, "seconds": round(time.time() - t0, 1), "workers": workers, "executions": execs, "coverage_edges": cov,
+             "corpus_files": len(os.listdir(corp)), "crash_files": len(crashes),
+             "note": "libFuzzer's -seed pins a campaign only approximately; the saved artifact is the reproducible unit"}
+    shutil.rmtree(wd, ignore_errors=True)
+    return stats, crashes
+
+
+def replay_fuzz(target, data):
+    """re-executes one artifact in a fresh process; returns (crashed, stderr tail)"""
+    binp = os.path.join(build("fuzz"), target)
+    wd = workdir()
+    fp = os.path.join(wd, "input")
+    with open(fp, "wb") as f:
+        f.write(data)
+    env = dict(os.environ); env.update(MPI_ENV); env.update(SAN_ENV); env["OMP_NUM_THREADS"] = "1"
+    p = subprocess.run([binp, fp], stdout=subprocess.DEVNULL, stderr=subprocess.PIPE, env=env, cwd=wd, timeout=600)
+    err = p.stderr[-4000:].decode("utf-8", "replace")
+    shutil.rmtree(wd, ignore_errors=True)
+    return p.returncode != 0, err
